@@ -5,6 +5,9 @@
 //   after every operation one line: "<op> | id g rhs parent inq; ... | queue ids | flags": costs as integers ("inf" for infinity);
 //   flags: QFLAG = a node's isInQueue flag disagrees with the queue's content, LOST = an inconsistent node is not queued,
 //   CYCLE = the parent pointers from the target form a cycle (computeShortestPath would never return: S is then skipped)
+#ifndef NDEBUG
+#define NDEBUG   // as in the library's release build: removeEdge(u, source) is what LazyLBTRRT::removeEdgeLb does for edges at the root
+#endif
 #include <boost/functional/hash.hpp>
 #include <boost/graph/adjacency_matrix.hpp>
 #include <boost/graph/adjacency_list.hpp>
